@@ -7,6 +7,7 @@ import (
 	"vctl/internal/act"
 	"vctl/internal/e1"
 	"vctl/internal/e2"
+	"vctl/internal/e6"
 	"vctl/internal/grog"
 )
 
@@ -19,8 +20,12 @@ var checks = map[string]func(string) int{
 	"C06": e2.RunC06,
 	"C07": e2.RunC07,
 	"C09": e2.RunC09,
+	"C11": e6.RunC11,
+	"C12": e6.RunC12,
 	"C13": e1.RunC13,
 	"C17": e2.RunC17,
+	"C19": e2.RunC19,
+	"C20": e6.RunC20,
 	"C14": e1.RunC14,
 	"C15": e1.RunC15,
 }
